@@ -55,6 +55,42 @@ Wave 2 (decoders and helpers; groups `dec` -> Gen/BodiesDec.lean, `parser` -> Ge
                class-level literal; calls of functions translated earlier in the same group;
                `REGEX.match(s)` (the match object - None or the tuple of groups, arity read from the
                compiled pattern - is a PARAMETER) and `REGEX.search(s)` (a predicate parameter).
+
+Wave 3 (loops; groups `line` `fold` `text` -> Gen/BodiesLine.lean, BodiesFold.lean, BodiesText.lean):
+  for          `for ch in s:` / `for i, ch in enumerate(s):` over a str (no else clause, not nested) becomes a
+               separate structurally recursive definition `<fn>_loop<k>` over the characters.  Its arguments
+               are the variables of the enclosing function that the body reads, the index, and the STATE: the
+               variables bound before the loop that the body assigns.  `break` ends the recursion, `continue`
+               and the end of the body recurse, `return v` inside the loop makes the result `Loop σ ρ`.  A
+               variable first bound in the body must not be read after the loop.  The index read after
+               the loop is `Option Int` (`none` = the loop never ran; reading it is `getBound`: UnboundLocalError).
+               A state variable that starts as `None` and is assigned an int is `Option Int`; one that
+               starts as the literal 0/1, is assigned a bool and is only ever used as a truth value is a Bool.
+  while        only `while i < len(s):` : a recursion on FUEL = len(s) + 1; running out of fuel is the
+               distinguished error `Exc.fuel` (never a value; the equality theorem shows it cannot occur).
+  lists        `x = []` where x is only appended to and consumed by `''.join(x)` is its concatenation
+               (a Str: `x.append(ch)`, `x.append(s)`); where x is returned it is a list of str.
+  characters   the loop variable is a `Char`: `ch == 'x'`, `ch == s`, `ch in 'xyz'`, `ch in ('x', 'y')`,
+               `len(ch.encode(DEFAULT_ENCODING))` (DEFAULT_ENCODING must be 'utf-8' in parser_tools.py).
+  also         `s[a:b]` with int expressions as bounds (CPython clamping), `s[i]` (IndexError: partial),
+               `self` as a str for a class deriving from exactly `str` without overriding
+               __len__/__getitem__/__iter__; `sep.join(f(i) for i in range(a, b, c))` (ValueError for c == 0);
+               `try: s.encode('ascii') except (UnicodeEncodeError, UnicodeDecodeError): pass else: ..`
+               (exactly this shape) is `if isAsciiStr s then .. `; `assert e` is NOT evaluated: it is
+               listed as a precondition in the comment of the definition (python -O is not modelled).
+  int or None  a variable that is `None` on one path and an int on another is `Option Int`: usable as a slice
+               bound (`None` = the default of that side), in `==`, as a truth value; as an operand of `+`/`-`
+               it is partial (`None` raises TypeError).  In `not x or E` / `x and E` the operand E is translated
+               with x known to be an int (it is evaluated only when x is true).
+  externals    besides results of calls and pure function parameters: ('proc') an expression statement
+               `f(x)` that may raise, ('pfun') a function parameter that may raise, with declared keyword
+               arguments and possibly an OPAQUE result type (a type parameter `{P : Type}` of the definition),
+               ('expr') a whole expression, matched by its text, that stays external as a function of the
+               local variables named in TARGETS.  A method may call module-level functions translated earlier
+               in the same group.  `return (a, b, c)` returns a tuple.
+  fragments    a target may name a FRAGMENT: the first `for` loop of the function together with the
+               constant initialisations directly in front of it; its free variables are parameters and
+               its result is the tuple of the variables named in TARGETS.
 """
 import ast
 import os
@@ -72,7 +108,8 @@ class Untranslatable(X.Untranslatable):
 
 LEAN_TYPE = {'Int': 'Int', 'Str': 'Str', 'Bytes': 'Str', 'Bool': 'Bool', 'TD': 'TD', 'OptStr': 'Option Str',
              'PyDate': 'PyDate', 'PyDateTime': 'PyDateTime', 'PyTime': 'PyTime', 'None': 'Unit', 'StrList': 'List Str',
-             'Truth': 'Bool'}
+             'Truth': 'Bool', 'Char': 'Char', 'OptInt': 'Option Int', 'Builder': 'Str', 'IntList': 'List Int',
+             'Unbound:Int': 'Option Int'}
 
 
 def lean_type(t):
@@ -105,8 +142,13 @@ LEAN_KEYWORDS = {'at', 'do', 'end', 'from', 'fun', 'have', 'in', 'let', 'open', 
 #   ('pred', param)              REGEX.search(s): truthiness of the match, a predicate parameter Str -> Bool
 #   ('match', param, REGEX)      REGEX.match(s): the match object (None or its groups) is the parameter
 #   ('ctor_int',)                cls(x) of an int subclass whose __new__ only wraps int.__new__ (shape checked)
-Target = namedtuple('Target', 'file cls fn lean self_type self_attrs externals optional group args',
-                    defaults=('enc', None))
+#   ('proc', param, argtypes)    an expression statement `f(x)`: a parameter `.. -> Py Unit` (it may raise)
+#   ('pfun', param, argtypes, rtype, {kw: type})   a function parameter that may raise, keyword arguments as declared;
+#                                an rtype that is not a translator type (e.g. 'P') is an OPAQUE type parameter of the definition
+#   ('expr', param, locals, rtype)   the key is a whole expression (as `ast.unparse` prints it): a function parameter
+#                                applied to the named local variables; the expression itself is not translated
+Target = namedtuple('Target', 'file cls fn lean self_type self_attrs externals optional group args fragment',
+                    defaults=('enc', None, None))
 TARGETS = [
     Target('prop.py', 'vDuration', 'to_ical', 'vDuration_to_ical', None, {'td': ('td', 'TD')}, {}, False),
     Target('prop.py', 'vUTCOffset', 'to_ical', 'vUTCOffset_to_ical', None, {'td': ('td', 'TD')}, {}, False),
@@ -133,6 +175,24 @@ TARGETS = [
     Target('parser.py', None, 'dquote', 'dquote', None, {}, {'QUOTABLE.search': ('pred', 'quotable_search')}, False,
            'parser', {'val': 'Str'}),
     Target('parser.py', None, 'q_join', 'q_join', None, {}, {}, False, 'parser', {'lst': 'StrList', 'sep': 'Str'}),
+    Target('parser.py', None, 'q_split', 'q_split', None, {}, {}, False, 'parser',
+           {'st': 'Str', 'sep': 'Str', 'maxsplit': 'Int'}),
+    # ---- content lines (C05)
+    Target('parser.py', None, 'escape_string', 'escape_string', None, {}, {}, False, 'line', {'val': 'Str'}),
+    Target('parser.py', None, 'unescape_string', 'unescape_string', None, {}, {}, False, 'line', {'val': 'Str'}),
+    Target('parser.py', 'Contentline', 'raw_value', 'raw_value', 'Str', {}, {}, False, 'line'),
+    Target('parser.py', 'Contentline', 'parts', 'parts_scan', None, {}, {}, False, 'line', {'st': 'Str'},
+           ('name_split', 'value_split', 'i')),
+    Target('parser.py', 'Contentline', 'parts', 'parts', 'Str', {'strict': ('strict', 'Bool')},
+           {'validate_token': ('proc', 'validate_token', ['Str']),
+            'Parameters.from_ical': ('pfun', 'params_from_ical', ['Str'], 'P', {'strict': 'Bool'}),
+            'Parameters(((unescape_string(key), unescape_list_or_string(value)) for key, value in iter(params.items())))':
+                ('expr', 'params_unescape', ['params'], 'P')}, False, 'line'),
+    # ---- folding (C06), TEXT lists (C07)
+    Target('parser.py', None, 'foldline', 'foldline', None, {}, {}, False, 'fold',
+           {'line': 'Str', 'limit': 'Int', 'fold_sep': 'Str'}),
+    Target('parser.py', None, 'split_on_unescaped_comma', 'split_on_unescaped_comma', None, {}, {}, False, 'text',
+           {'text': 'Str'}),
 ]
 
 # a translated expression; lits: possible str literals or None; elts: the components of a tuple display
@@ -146,6 +206,13 @@ EXC = {'ValueError': ['valueError'], 'OverflowError': ['overflowError'], 'KeyErr
 
 class NeedMonad(Exception):
     """the function can raise: translate it again into `Py T`"""
+
+
+class Widen(Exception):
+    """a state variable of a loop needs a wider type: translate the loop again"""
+
+    def __init__(self, name, typ):
+        self.name, self.typ = name, typ
 
 
 def lname(name):
@@ -164,12 +231,21 @@ def reads(nodes):
     return out
 
 
+def is_append(n):
+    """`x.append(v)` on a name"""
+    return isinstance(n, ast.Call) and isinstance(n.func, ast.Attribute) and n.func.attr == 'append' \
+        and isinstance(n.func.value, ast.Name) and len(n.args) == 1 and not n.keywords
+
+
 def assigned(nodes):
+    """names bound or appended to by the statements"""
     out = []
     for s in nodes:
         for n in ast.walk(s):
-            if isinstance(n, ast.Name) and isinstance(n.ctx, ast.Store) and n.id not in out:
-                out.append(n.id)
+            name = n.id if isinstance(n, ast.Name) and isinstance(n.ctx, ast.Store) else \
+                n.func.value.id if is_append(n) else None
+            if name is not None and name not in out:
+                out.append(name)
     return out
 
 
@@ -192,9 +268,25 @@ def module_bindings(tree):
     return out
 
 
+def find_fragment(func):
+    """the statements of a FRAGMENT target: the first `for` loop of the function and the assignments of constants
+    directly in front of it (also used by the harness to run exactly these source lines)"""
+    for n in ast.walk(func):
+        for f in ('body', 'orelse', 'finalbody'):
+            stmts = getattr(n, f, None)
+            if isinstance(stmts, list) and any(isinstance(x, ast.For) for x in stmts):
+                k = next(i for i, x in enumerate(stmts) if isinstance(x, ast.For))
+                a = k
+                while a > 0 and isinstance(stmts[a - 1], ast.Assign) and len(stmts[a - 1].targets) == 1 \
+                        and isinstance(stmts[a - 1].targets[0], ast.Name) and isinstance(stmts[a - 1].value, ast.Constant):
+                    a -= 1
+                return stmts[a:k + 1]
+    return None
+
+
 def has_return(nodes):
     """does a `return` or `raise` occur inside (the statement can end the function)"""
-    return any(isinstance(n, (ast.Return, ast.Raise)) for s in nodes for n in ast.walk(s))
+    return any(isinstance(n, (ast.Return, ast.Raise, ast.Break, ast.Continue)) for s in nodes for n in ast.walk(s))
 
 
 class Fn:
@@ -212,6 +304,14 @@ class Fn:
         self.lazy = 0             # > 0 inside an operand that Python may not evaluate
         self.notes = []           # tests decided at translation time (specialised arguments)
         self.tree = None          # module AST (regex sources)
+        self.src_dir = None
+        self.aux = []             # generated loop definitions (text), emitted before the function
+        self.nloops = 0
+        self.loopctx = []         # the loop being translated: what break / continue / return / end of body become
+        self.slots = {}           # state variables of that loop -> their type
+        self.slot_init = {}
+        self.rtype_lean = None    # fragments: the Lean result type
+        self.consts = {}
 
     def fail(self, node, what):
         raise Untranslatable(f'{self.qual}: line {getattr(node, "lineno", "?")}: {what}')
@@ -247,6 +347,8 @@ class Fn:
         if isinstance(node, ast.UnaryOp) and isinstance(node.op, ast.Not):
             st = self.static(node.operand, env)
             return None if st is None else not st
+        if any(isinstance(n, ast.Name) and n.id in self.slots for n in ast.walk(node)):
+            return None         # a state variable of the loop being translated may change its type
         if isinstance(node, ast.Name) and node.id in env and env[node.id].type == 'None':
             return False
         if isinstance(node, ast.Compare) and len(node.ops) == 1 and isinstance(node.ops[0], (ast.Is, ast.IsNot)) \
@@ -267,7 +369,7 @@ class Fn:
     def builtin_method_ok(self, node, *dunder):
         """`self` is used as the builtin it derives from: the class must derive from exactly that builtin and
         must not override the special methods involved"""
-        want = {'Int': 'int'}[self.t.self_type]
+        want = {'Int': 'int', 'Str': 'str'}[self.t.self_type]
         if [ast.unparse(b) for b in self.cls.bases] != [want]:
             self.fail(node, f'class {self.t.cls} does not derive from exactly `{want}`')
         for st in self.cls.body:
@@ -281,7 +383,7 @@ class Fn:
             return v.lean
         if v.type == 'Truth':
             return v.lean
-        if v.type in ('Int', 'Str', 'Bytes', 'TD', 'OptStr', 'None'):
+        if v.type in ('Int', 'Str', 'Bytes', 'TD', 'OptStr', 'None', 'OptInt'):
             return f'(truthy {v.lean})'
         if v.type.startswith('Match'):
             return f'{v.lean}.isSome'
@@ -291,7 +393,13 @@ class Fn:
         """an expression in a boolean context -> Lean Bool term"""
         if isinstance(node, ast.BoolOp):
             op = ' && ' if isinstance(node.op, ast.And) else ' || '
-            parts = [self.test(node.values[0], env)] + [self.lazily(self.test, x, env) for x in node.values[1:]]
+            first, env2 = node.values[0], env
+            guard = first.operand if isinstance(node.op, ast.Or) and isinstance(first, ast.UnaryOp) \
+                and isinstance(first.op, ast.Not) else first if isinstance(node.op, ast.And) else None
+            if isinstance(guard, ast.Name) and guard.id in env and env[guard.id].type == 'OptInt':
+                # `not x or E` / `x and E`: E is evaluated only when x is true, hence not None
+                env2 = dict(env, **{guard.id: V(f'({env[guard.id].lean}.getD 0)', 'Int', None)})
+            parts = [self.test(node.values[0], env)] + [self.lazily(self.test, x, env2) for x in node.values[1:]]
             return '(' + op.join(parts) + ')'
         if isinstance(node, ast.UnaryOp) and isinstance(node.op, ast.Not):
             return f'(!{self.test(node.operand, env)})'
@@ -328,24 +436,54 @@ class Fn:
 
     def e_Subscript(self, node, env):
         v, sl = self.expr(node.value, env), node.slice
-        bound = lambda b: b is None or (isinstance(b, ast.Constant) and type(b.value) is int and b.value >= 0)  # noqa: E731
-        if v.type != 'Str' or not isinstance(sl, ast.Slice) or sl.step is not None or not bound(sl.lower) \
-                or not bound(sl.upper) or (sl.lower is None and sl.upper is None):
-            self.fail(node, f'subscript `{ast.unparse(node)[:40]}` (only str slices with literal bounds >= 0)')
-        if sl.upper is None:
-            return V(f'(pySliceFrom {v.lean} {sl.lower.value})', 'Str', None)
-        if sl.lower is None:
-            return V(f'(pySliceTo {v.lean} {sl.upper.value})', 'Str', None)
-        return V(f'(pySlice {v.lean} {sl.lower.value} {sl.upper.value})', 'Str', None)
+        lit = lambda b: b is None or (isinstance(b, ast.Constant) and type(b.value) is int and b.value >= 0)  # noqa: E731
+        if v.type != 'Str':
+            self.fail(node, f'subscript of a value of type {v.type}')
+        if not isinstance(sl, ast.Slice):
+            i = self.expr(sl, env)
+            if i.type != 'Int':
+                self.fail(node, f'index `{ast.unparse(node)[:40]}` is not an int')
+            return self.hoist(node, f'strIndex {v.lean} {i.lean}', 'Char')
+        if sl.step is not None or (sl.lower is None and sl.upper is None):
+            self.fail(node, f'subscript `{ast.unparse(node)[:40]}`')
+        if lit(sl.lower) and lit(sl.upper):
+            if sl.upper is None:
+                return V(f'(pySliceFrom {v.lean} {sl.lower.value})', 'Str', None)
+            if sl.lower is None:
+                return V(f'(pySliceTo {v.lean} {sl.upper.value})', 'Str', None)
+            return V(f'(pySlice {v.lean} {sl.lower.value} {sl.upper.value})', 'Str', None)
+        a = None if sl.lower is None else self.expr(sl.lower, env)      # int expressions: CPython clamping
+        b = None if sl.upper is None else self.expr(sl.upper, env)
+        if any(x is not None and x.type == 'OptInt' for x in (a, b)) and all(x is None or x.type in ('Int', 'OptInt') for x in (a, b)):
+            w = lambda x: 'none' if x is None else x.lean if x.type == 'OptInt' else f'(some {x.lean})'   # noqa: E731
+            return V(f'(pySliceO {v.lean} {w(a)} {w(b)})', 'Str', None)
+        if any(x is not None and x.type != 'Int' for x in (a, b)):
+            self.fail(node, f'slice `{ast.unparse(node)[:40]}` whose bounds are not ints')
+        if b is None:
+            return V(f'(pySliceFromI {v.lean} {a.lean})', 'Str', None)
+        if a is None:
+            return V(f'(pySliceToI {v.lean} {b.lean})', 'Str', None)
+        return V(f'(pySliceI {v.lean} {a.lean} {b.lean})', 'Str', None)
 
     def e_Name(self, node, env):
         if node.id == 'self':
             if self.t.self_type is None:
                 self.fail(node, '`self` used as a value')
+            if self.t.self_type == 'Str':
+                self.builtin_method_ok(node, '__len__', '__getitem__', '__iter__', '__contains__', '__eq__')
             return self.param('self', self.t.self_type)
         if node.id not in env:
             self.fail(node, f'name `{node.id}` is not a local variable (globals and builtins are outside the subset)')
-        return env[node.id]
+        v = env[node.id]
+        if v.type.startswith('Unbound:'):       # a `for` target after the loop
+            return self.hoist(node, f'getBound {v.lean}', v.type[8:])
+        return v
+
+    def e_List(self, node, env):
+        vals = [self.expr(e, env) for e in node.elts]
+        if not vals or any(v.type != 'Str' for v in vals):
+            self.fail(node, f'list display `{ast.unparse(node)[:40]}` (only non-empty lists of str; `x = []` is a statement)')
+        return V('([' + ', '.join(v.lean for v in vals) + '] : List Str)', 'StrList', None)
 
     def e_Attribute(self, node, env):
         if isinstance(node.value, ast.Name) and node.value.id == 'cls' and self.cls is not None and 'cls' not in env:
@@ -378,6 +516,10 @@ class Fn:
         return self.binop(node, node.op, self.expr(node.left, env), self.expr(node.right, env), node.right)
 
     def binop(self, node, op, a, b, right_node=None):
+        if type(op).__name__ in ('Add', 'Sub') and {a.type, b.type} == {'Int', 'OptInt'}:
+            # an `int or None` operand: None raises TypeError
+            a = self.hoist(node, f'intOfOpt {a.lean}', 'Int') if a.type == 'OptInt' else a
+            b = self.hoist(node, f'intOfOpt {b.lean}', 'Int') if b.type == 'OptInt' else b
         k, ts = type(op).__name__, (a.type, b.type)
         if ts == ('Int', 'Int') and k in ('Add', 'Sub', 'Mult'):
             return V(f'({a.lean} {dict(Add="+", Sub="-", Mult="*")[k]} {b.lean})', 'Int', None)
@@ -406,11 +548,29 @@ class Fn:
             return V(f'(decide ({a.lean} {dict(Lt="<", LtE="≤", Gt=">", GtE="≥")[k]} {b.lean}))', 'Bool', None)
         if ts in (('Int', 'Int'), ('Str', 'Str'), ('Bytes', 'Bytes'), ('Bool', 'Bool')) and k in ('Eq', 'NotEq'):
             return V(f'({a.lean} {"==" if k == "Eq" else "!="} {b.lean})', 'Bool', None)
+        if ts in (('Int', 'OptInt'), ('OptInt', 'Int'), ('OptInt', 'OptInt')) and k in ('Eq', 'NotEq'):
+            w = lambda v: f'(some {v.lean})' if v.type == 'Int' else v.lean   # noqa: E731
+            return V(f'({w(a)} {"==" if k == "Eq" else "!="} {w(b)})', 'Bool', None)
         if ts == ('OptStr', 'Str') and k in ('Eq', 'NotEq'):
             return V(f'({a.lean} {"==" if k == "Eq" else "!="} some {b.lean})', 'Bool', None)
         if ts == ('TD', 'TD') and k in ('Lt', 'Gt', 'LtE', 'GtE'):
             x, y = (a, b) if k in ('Lt', 'LtE') else (b, a)
             return V(f'(TD.{"lt" if k in ("Lt", "Gt") else "le"} {x.lean} {y.lean})', 'Bool', None)
+        one = lambda v: v.type == 'Str' and v.lits is not None and all(len(x) == 1 for x in v.lits) and len(v.lits) == 1  # noqa: E731
+        neg = '!' if k in ('NotEq', 'NotIn') else ''
+        if a.type == 'Char' and k in ('Eq', 'NotEq'):
+            if one(b):
+                return V(f'({neg}({a.lean} == {X.lchar(next(iter(b.lits)))}))', 'Bool', None)
+            if b.type == 'Str':
+                return V(f'({neg}([{a.lean}] == {b.lean}))', 'Bool', None)
+            if b.type == 'Char':
+                return V(f'({neg}({a.lean} == {b.lean}))', 'Bool', None)
+        if a.type == 'Char' and k in ('In', 'NotIn'):
+            if b.type == 'Str':         # a one-character str is in `s` iff the character occurs in it
+                return V(f'({neg}({b.lean}.contains {a.lean}))', 'Bool', None)
+            if b.type == 'Tuple' and all(one(e) for e in b.elts):
+                lst = '[' + ', '.join(X.lchar(next(iter(e.lits))) for e in b.elts) + ']'
+                return V(f'({neg}(({lst} : List Char).contains {a.lean}))', 'Bool', None)
         if a.type == 'Str' and b.type == 'Tuple' and k in ('In', 'NotIn') and all(e.lits is not None for e in b.elts):
             lst = '([' + ', '.join(e.lean for e in b.elts) + '] : List Str)'
             return V(f'({"" if k == "In" else "!"}{lst}.contains {a.lean})', 'Bool', None)
@@ -489,6 +649,16 @@ class Fn:
         v = self.expr(arg, env)
         return self.hoist(node, f'intOfStr {v.lean}', 'Int') if v.type == 'Str' else None
 
+    def is_utf8(self, node):
+        """the literal 'utf-8', or DEFAULT_ENCODING of parser_tools.py with that value"""
+        if isinstance(node, ast.Constant):
+            return node.value == 'utf-8'
+        if isinstance(node, ast.Name) and node.id == 'DEFAULT_ENCODING' \
+                and self.modnames.get(node.id) == 'icalendar.parser_tools.DEFAULT_ENCODING':
+            tools = X.parse(os.path.join(self.src_dir, 'parser_tools.py'))
+            return X.const(X.find_assign(tools.body, 'DEFAULT_ENCODING')) == 'utf-8'
+        return False
+
     def ctor_int_ok(self, node):
         """`cls(x)`: the class derives from exactly `int` and its __new__ only wraps int.__new__"""
         new = [st for st in self.cls.body if isinstance(st, ast.FunctionDef) and st.name == '__new__']
@@ -502,8 +672,24 @@ class Fn:
             self.fail(node, f'{self.t.cls}.__new__ is not `self = super().__new__(cls, *args, **kwargs)` + attributes')
 
     def e_Call(self, node, env):
+        whole = self.t.externals.get(ast.unparse(node))
+        if whole is not None and whole[0] == 'expr':        # an expression that stays external, as a whole
+            args = [self.expr(ast.Name(id=n, ctx=ast.Load()), env) for n in whole[2]]
+            f = self.param(whole[1], ' → '.join(lean_type(a.type) for a in args) + ' → ' + lean_type(whole[3]))
+            return V('(' + ' '.join([f.lean] + [a.lean for a in args]) + ')', whole[3], None)
         fn, callee = node.func, ast.unparse(node.func)
         ext = self.t.externals.get(callee)
+        if ext is not None and ext[0] in ('proc', 'pfun') and (not isinstance(fn, ast.Name) or fn.id not in env):
+            kws = ext[4] if ext[0] == 'pfun' else {}
+            if [k.arg for k in node.keywords] != list(kws):
+                self.fail(node, f'external call {callee}: keyword arguments differ from the declared {list(kws)}')
+            args = self.call_args(node, env) + [self.expr(k.value, env) for k in node.keywords]
+            want = ext[2] + list(kws.values())
+            if [a.type for a in args] != want:
+                self.fail(node, f'external call {callee}: argument types {[a.type for a in args]}, declared {want}')
+            rt = 'None' if ext[0] == 'proc' else ext[3]
+            f = self.param(ext[1], ' → '.join(lean_type(t) for t in want) + f' → Py {lean_type(rt)}')
+            return self.hoist(node, ' '.join([f.lean] + [a.lean for a in args]), rt)
         if ext is not None and isinstance(ext[0], str) and (not isinstance(fn, ast.Name) or fn.id not in env):
             if node.keywords:
                 self.fail(node, f'call with keyword arguments `{ast.unparse(node)[:50]}`')
@@ -543,9 +729,25 @@ class Fn:
                 v = self.expr(fn.value, env)
                 if v.type == 'Str':
                     return V(f'(replaceAll {X.lstr(node.args[0].value)} {X.lstr(node.args[1].value)} {v.lean})', 'Str', None)
+            if fn.attr == 'join' and len(node.args) == 1 and isinstance(node.args[0], ast.Name) \
+                    and isinstance(fn.value, ast.Constant) and fn.value.value == '':
+                b = self.expr(node.args[0], env)
+                if b.type == 'Builder':         # a list of str that was only appended to: its concatenation
+                    return V(b.lean, 'Str', None)
             if fn.attr == 'join' and len(node.args) == 1 and isinstance(node.args[0], ast.GeneratorExp):
                 g, sep = node.args[0], self.expr(fn.value, env)
                 c = g.generators[0]
+                if sep.type == 'Str' and len(g.generators) == 1 and not c.ifs and not c.is_async \
+                        and isinstance(c.target, ast.Name) and isinstance(c.iter, ast.Call) \
+                        and isinstance(c.iter.func, ast.Name) and c.iter.func.id == 'range' and 'range' not in self.modnames \
+                        and c.iter.func.id not in env and len(c.iter.args) == 3 and not c.iter.keywords:
+                    ra = [self.expr(a, env) for a in c.iter.args]       # evaluated when the generator is created
+                    if all(a.type == 'Int' for a in ra):
+                        rng = self.hoist(node, 'pyRange ' + ' '.join(a.lean for a in ra), 'IntList')
+                        x = lname(c.target.id)
+                        elt = self.lazily(self.expr, g.elt, dict(env, **{c.target.id: V(x, 'Int', None)}))
+                        if elt.type == 'Str':
+                            return V(f'(joinWith {sep.lean} ({rng.lean}.map (fun {x} => {elt.lean})))', 'Str', None)
                 if sep.type == 'Str' and len(g.generators) == 1 and not c.ifs and not c.is_async and isinstance(c.target, ast.Name):
                     it = self.expr(c.iter, env)
                     if it.type == 'StrList':
@@ -567,7 +769,7 @@ class Fn:
                 self.fail(node, f'external call {fn.id}({", ".join(got)}): expected arguments {args}')
             return self.param(res, typ)
         d = self.registry.get((None, fn.id))
-        if d is not None and self.t.cls is None and self.modnames.get(fn.id) == 'def' and not node.keywords:
+        if d is not None and self.modnames.get(fn.id) == 'def' and not node.keywords:
             args = self.call_args(node, env)
             if [a.type for a in args] != [p[1] for p in d.params[:d.nargs]]:
                 self.fail(node, f'call {fn.id}(...): argument types {[a.type for a in args]}')
@@ -600,6 +802,12 @@ class Fn:
             v = self.int_of(node, node.args[0], env)
             if v is not None:
                 return v
+        if fn.id == 'len' and len(node.args) == 1 and isinstance(node.args[0], ast.Call) \
+                and isinstance(node.args[0].func, ast.Attribute) and node.args[0].func.attr == 'encode' \
+                and len(node.args[0].args) == 1 and not node.args[0].keywords and self.is_utf8(node.args[0].args[0]):
+            c = self.expr(node.args[0].func.value, env)
+            if c.type == 'Char':
+                return V(f'(utf8Len {c.lean})', 'Int', None)
         if fn.id == 'len' and len(node.args) == 1 and not isinstance(node.args[0], ast.Starred):
             v = self.expr(node.args[0], env)
             if v.type == 'Str':
@@ -633,8 +841,39 @@ class Fn:
         if v.type == 'Tuple':       # a tuple display bound to a name: kept symbolically (for `f(*name)`)
             env[name] = v
             return env, None
+        if name in self.slots:
+            v = self.coerce(name, v)
+        self.consts[name] = v.lean if v.lean in ('(0 : Int)', '(1 : Int)') else None    # the literal it holds, if 0 / 1
         env[name] = V(lname(name), v.type, v.lits)
         return env, f'let {lname(name)} : {lean_type(v.type)} := {v.lean}'
+
+    def coerce(self, name, v):
+        """a value assigned to a state variable of the loop being translated"""
+        slot = self.slots[name]
+        if v.type == slot:
+            return v
+        if slot == 'OptInt' and v.type == 'Int':
+            return V(f'(some {v.lean})', 'OptInt', None)
+        if slot == 'OptInt' and v.type == 'None':
+            return V('(none : Option Int)', 'OptInt', None)
+        if slot == 'Bool' and v.lean in ('(0 : Int)', '(1 : Int)'):
+            return V('false' if v.lean == '(0 : Int)' else 'true', 'Bool', None)
+        init = self.slot_init[name]
+        if slot == 'None' and v.type == 'Int':
+            raise Widen(name, 'OptInt')
+        if slot == 'Int' and v.type == 'Bool' and init is not None and self.only_truth(name):
+            raise Widen(name, 'Bool')
+        self.fail(self.func, f'`{name}` is {slot} before the loop and is assigned a {v.type} inside it')
+
+    def only_truth(self, name):
+        """every read of the variable is a truth test (`not x`, `x and ..`, `if x`)"""
+        for n in ast.walk(self.func):
+            if isinstance(n, ast.Name) and n.id == name and isinstance(n.ctx, ast.Load):
+                p = self.parent.get(n)
+                if not (isinstance(p, ast.BoolOp) or (isinstance(p, ast.UnaryOp) and isinstance(p.op, ast.Not))
+                        or (isinstance(p, (ast.If, ast.While, ast.IfExp)) and p.test is n)):
+                    return False
+        return True
 
     def ret(self, lean):
         return f'pure {lean}' if self.monadic else lean
@@ -666,12 +905,52 @@ class Fn:
             # statements after a `return` never run (they are there when the rest of the function was appended to
             # a branch that already returned): dropped
             v = self.expr(s.value, env)
-            if v.type not in ('Str', 'Bytes', 'Int', 'Bool', 'TD', 'PyDate', 'PyTime', 'PyDateTime'):
+            if v.type == 'Tuple' and all(e.type != 'Tuple' for e in v.elts):       # a tuple display of values
+                self.rtype_lean = ' × '.join(lean_type(e.type) for e in v.elts)
+                v = V('(' + ', '.join(e.lean for e in v.elts) + ')', 'Tuple:' + self.rtype_lean, None)
+            elif v.type not in ('Str', 'Bytes', 'Int', 'Bool', 'TD', 'PyDate', 'PyTime', 'PyDateTime', 'StrList'):
                 self.fail(s, f'return of a value of type {v.type}')
             if self.rtype not in (None, v.type):
                 self.fail(s, f'returns both {self.rtype} and {v.type}')
             self.rtype = v.type
+            if self.loopctx:
+                return self.take_pre() + [self.ret(f'(Loop.ret {v.lean})')]
             return self.take_pre() + [self.ret(v.lean)]
+        if isinstance(s, ast.Assert):       # not evaluated: a documented precondition
+            self.notes.append(f'PRECONDITION (assert, line {s.lineno}, not checked by the model; python -O is not '
+                              f'modelled): `{ast.unparse(s.test)}`')
+            return self.block(rest, env, tail)
+        if isinstance(s, (ast.Break, ast.Continue)):
+            if not self.loopctx:
+                self.fail(s, f'{type(s).__name__} outside a loop')
+            return self.loopctx[-1]['brk' if isinstance(s, ast.Break) else 'cont'](env)
+        if isinstance(s, ast.For):
+            return self.for_(s, rest, env, tail)
+        if isinstance(s, ast.While):
+            return self.while_(s, rest, env, tail)
+        if isinstance(s, ast.Expr) and isinstance(s.value, ast.Call) \
+                and self.t.externals.get(ast.unparse(s.value.func), ('',))[0] == 'proc':
+            self.expr(s.value, env)         # hoisted: it may raise; its result is not used
+            return self.take_pre() + self.block(rest, env, tail)
+        if isinstance(s, ast.Expr) and is_append(s.value):
+            name = s.value.func.value.id
+            if name not in env or env[name].type not in ('Builder', 'StrList'):
+                self.fail(s, f'`{name}.append(..)` on something that is not a local list')
+            x, v = env[name], self.expr(s.value.args[0], env)
+            if x.type == 'Builder' and v.type in ('Str', 'Char'):
+                new = V(f'({x.lean} ++ {v.lean})' if v.type == 'Str' else f'({x.lean} ++ [{v.lean}])', 'Builder', None)
+            elif x.type == 'StrList' and v.type == 'Str':
+                new = V(f'({x.lean} ++ [{v.lean}])', 'StrList', None)
+            else:
+                self.fail(s, f'append of a {v.type} to a {x.type}')
+            env, line = self.bind(env, name, new)
+            return self.take_pre() + [line] + self.block(rest, env, tail)
+        if isinstance(s, ast.Assign) and len(s.targets) == 1 and isinstance(s.targets[0], ast.Name) \
+                and isinstance(s.value, ast.List) and not s.value.elts:
+            kind = self.listkind(s, s.targets[0].id)
+            v = V('([] : Str)', 'Builder', None) if kind == 'Builder' else V('([] : List Str)', 'StrList', None)
+            env, line = self.bind(env, s.targets[0].id, v)
+            return [line] + self.block(rest, env, tail)
         if isinstance(s, ast.Raise):
             e = s.exc.func if isinstance(s.exc, ast.Call) else s.exc
             if not (isinstance(e, ast.Name) and e.id == 'ValueError' and 'ValueError' not in self.modnames):
@@ -712,6 +991,19 @@ class Fn:
     def try_(self, s, rest, env, tail):
         """`try: BODY except <classes>: raise ValueError(...)`"""
         h = s.handlers[0] if len(s.handlers) == 1 else None
+        b = s.body[0].value if len(s.body) == 1 and isinstance(s.body[0], ast.Expr) else None
+        if h is not None and isinstance(b, ast.Call) and isinstance(b.func, ast.Attribute) and b.func.attr == 'encode' \
+                and len(b.args) == 1 and not b.keywords and isinstance(b.args[0], ast.Constant) and b.args[0].value == 'ascii' \
+                and h.type is not None and len(h.body) == 1 and isinstance(h.body[0], ast.Pass) and s.orelse and not s.finalbody \
+                and sorted(ast.unparse(x) for x in (h.type.elts if isinstance(h.type, ast.Tuple) else [h.type])) \
+                == ['UnicodeDecodeError', 'UnicodeEncodeError'] and not ({'UnicodeDecodeError', 'UnicodeEncodeError'} & set(self.modnames)):
+            v = self.expr(b.func.value, env)        # `s.encode('ascii')` raises iff a code point is >= 128
+            if v.type != 'Str':
+                self.fail(s, f".encode('ascii') on a value of type {v.type}")
+            ind = lambda ls: ['  ' + x for x in ls]   # noqa: E731
+            a = self.block(s.orelse + rest, env, tail)
+            c = self.block(rest, env, tail)
+            return self.take_pre() + [f'if (isAsciiStr {v.lean}) then'] + ind(a) + ['else'] + ind(c)
         if h is None or s.orelse or s.finalbody or len(h.body) != 1 or not isinstance(h.body[0], ast.Raise):
             self.fail(s, 'try statement that is not `try: .. except <classes>: raise ValueError(..)`')
         e = h.body[0].exc.func if isinstance(h.body[0].exc, ast.Call) else h.body[0].exc
@@ -787,7 +1079,13 @@ class Fn:
         b = self.block(s.orelse, env, Tail(merged, make))
         if not merged:          # no effect on what follows (the branches were still checked against the subset)
             return self.block(rest, env, tail)
-        for n, x, y in zip(merged, ends[0], ends[1]):
+        for k, (n, x, y) in enumerate(zip(merged, ends[0], ends[1])):
+            if {x.type, y.type} == {'Int', 'OptInt'}:       # an int on one path, int-or-None on the other
+                for br, es in ((a, ends[0]), (b, ends[1])):
+                    if es[k].type == 'Int':
+                        es[k] = V(f'(some {es[k].lean})', 'OptInt', None)
+                        br[-1] = '(' + ', '.join(z.lean for z in es) + ')'
+                x, y = ends[0][k], ends[1][k]
             if x.type != y.type:
                 self.fail(s, f'`{n}` is {x.type} on one path and {y.type} on the other')
         typ = ' × '.join(lean_type(x.type) for x in ends[0])
@@ -804,8 +1102,203 @@ class Fn:
             lines.append(line)
         return lines + self.block(rest, env, tail)
 
+    def listkind(self, node, name):
+        """`name = []`: how is the list used in the whole function"""
+        uses = set()
+        for n in ast.walk(self.func):
+            if isinstance(n, ast.Name) and n.id == name:
+                p = self.parent.get(n)
+                if isinstance(p, ast.Assign) and isinstance(p.value, ast.List) and not p.value.elts and n in p.targets:
+                    continue
+                if isinstance(p, ast.Attribute) and p.attr == 'append' and is_append(self.parent.get(p)) \
+                        and isinstance(self.parent.get(self.parent.get(p)), ast.Expr):
+                    continue
+                if isinstance(p, ast.Call) and isinstance(p.func, ast.Attribute) and p.func.attr == 'join' \
+                        and isinstance(p.func.value, ast.Constant) and p.func.value.value == '' and p.args == [n]:
+                    uses.add('join')
+                elif isinstance(p, ast.Return):
+                    uses.add('return')
+                else:
+                    self.fail(node, f'the list `{name}` is used as `{ast.unparse(p)[:40]}` (only append, \'\'.join, return)')
+        if uses == {'return'}:
+            return 'StrList'
+        if uses <= {'join'}:
+            return 'Builder'
+        self.fail(node, f'the list `{name}` is both joined and returned')
+
+    def for_(self, s, rest, env, tail):
+        it, tgt, iname = s.iter, s.target, None
+        if isinstance(it, ast.Call) and isinstance(it.func, ast.Name) and it.func.id == 'enumerate' \
+                and 'enumerate' not in self.modnames and 'enumerate' not in env and len(it.args) == 1 and not it.keywords:
+            if not (isinstance(tgt, ast.Tuple) and len(tgt.elts) == 2 and all(isinstance(e, ast.Name) for e in tgt.elts)):
+                self.fail(s, 'target of a loop over enumerate(..) is not `i, ch`')
+            it, iname, cname = it.args[0], tgt.elts[0].id, tgt.elts[1].id
+        elif isinstance(tgt, ast.Name):
+            cname = tgt.id
+        else:
+            self.fail(s, f'loop target `{ast.unparse(tgt)}`')
+        itv = self.expr(it, env)
+        if itv.type != 'Str' or s.orelse:
+            self.fail(s, f'`for` over a value of type {itv.type}' if itv.type != 'Str' else '`for .. else`')
+        return self.loop(s, rest, env, tail, iname, cname, itv, None)
+
+    def while_(self, s, rest, env, tail):
+        t = s.test
+        ok = isinstance(t, ast.Compare) and len(t.ops) == 1 and isinstance(t.ops[0], ast.Lt) and isinstance(t.left, ast.Name) \
+            and isinstance(t.comparators[0], ast.Call) and isinstance(t.comparators[0].func, ast.Name) \
+            and t.comparators[0].func.id == 'len' and len(t.comparators[0].args) == 1 and not s.orelse
+        if not ok:
+            self.fail(s, f'`while {ast.unparse(t)[:40]}` (only `while i < len(s):` without else)')
+        sv = self.expr(t.comparators[0].args[0], env)
+        if sv.type != 'Str' or reads([t.comparators[0].args[0]]) & set(assigned(s.body)):
+            self.fail(s, 'the str whose length bounds the `while` is not a str that the body leaves alone')
+        if not self.monadic:
+            raise NeedMonad()       # running out of fuel is an error value
+        return self.loop(s, rest, env, tail, None, None, None, f'({sv.lean}.length + 1)')
+
+    def loop(self, s, rest, env, tail, iname, cname, itv, fuel):
+        """a `for` over the characters of `itv` (fuel None) or a `while` on fuel: a separate recursive definition"""
+        if self.loopctx:
+            self.fail(s, 'nested loop')
+        pre0 = self.take_pre()
+        targets = {iname, cname} - {None}
+        asg = assigned(s.body)
+        if targets & set(asg):
+            self.fail(s, 'the loop body assigns the loop variable')
+        state = [n for n in asg if n in env and n not in targets]
+        later = reads(rest) | set(tail.names)
+        for n in asg:
+            if n not in env and n not in targets and n in later:
+                self.fail(s, f'`{n}` is first bound inside the loop and read after it')
+        if cname in later:
+            self.fail(s, f'the loop variable `{cname}` is read after the loop')
+        for n in state:
+            if env[n].type in ('Tuple',) or env[n].type.startswith('Unbound'):
+                self.fail(s, f'state variable `{n}` of type {env[n].type}')
+        last = iname is not None and iname in later
+        inner_ret = any(isinstance(n, ast.Return) for st in s.body for n in ast.walk(st))
+        self.nloops += 1
+        name = f'{self.t.lean}_loop{self.nloops}'
+        slots = {n: env[n].type for n in state}
+        self.slot_init = {n: self.consts.get(n) for n in state}    # the 0 / 1 literal a state variable starts with
+        saved = (self.fresh, list(self.used), self.rtype, list(self.notes))
+        while True:
+            try:
+                self.slots = dict(slots)
+                res = self.loop_body(s, env, state, slots, name, iname, cname, last, inner_ret, fuel)
+                break
+            except Widen as w:
+                slots[w.name] = w.typ
+                self.fresh, self.used, self.rtype, self.notes = saved[0], list(saved[1]), saved[2], list(saved[3])
+                self.pre = []
+            finally:
+                self.slots, self.loopctx = {}, []
+        body, test_lines = res
+        # what the definition needs from the enclosing function: parameters and locals its text mentions
+        text = '\n'.join(body + test_lines)
+        word = lambda n: re.search(r"(?<![\w'.])" + re.escape(n) + r"(?![\w'])", text) is not None   # noqa: E731
+        inner = {lname(n) for n in state} | {lname(x) for x in targets} | {"rest'", "fuel'"}
+        caps = []
+        for n, typ in [(p, t) for p, t in self.used] + [(v.lean, v.type) for v in env.values() if v.type != 'Tuple']:
+            if re.fullmatch(r"[A-Za-z_][\w']*", n) and n not in inner and word(n) and n not in [c[0] for c in caps]:
+                caps.append((n, typ))
+        capsig = ''.join(f' ({n} : {lean_type(t)})' for n, t in caps)
+        capargs = ''.join(' ' + n for n, _ in caps)
+        body = [ln.replace(' «CAP»', capargs) for ln in body]
+        sigma = [lean_type(slots[n]) for n in state] + (['Option Int'] if last else [])
+        sig_t = ' × '.join(sigma) if sigma else 'Unit'
+        out_t = f'Loop ({sig_t}) {lean_type(self.rtype)}' if inner_ret else sig_t
+        res_t = f'Py ({out_t})' if self.monadic else out_t
+        names = [lname(n) for n in state]
+        tup = lambda xs: '(' + ', '.join(xs) + ')' if xs else '()'   # noqa: E731
+        fell = lambda xs: self.ret(f'(Loop.fell {tup(xs)})' if inner_ret else tup(xs))   # noqa: E731
+        ind = lambda ls: ['  ' + x for x in ls]   # noqa: E731
+        do = ' do' if self.monadic else ''
+        doc = f'/-- the {"`for`" if fuel is None else "`while`"} loop of `{self.qual}` at line {s.lineno}: ' \
+              f'state ({", ".join(state)})' + (f'; `{iname}` after the loop is the last index (none: the loop never ran)' if last else '') \
+              + ('; fuel: running out of it is `Exc.fuel`' if fuel else '') + ' -/'
+        if fuel is None:
+            idx_t = (['Int'] if iname else []) + (['Option Int'] if last else [])
+            typ = ' → '.join(idx_t + [lean_type(slots[n]) for n in state] + ['Str', res_t])
+            pi = ([lname(iname)] if iname else []) + ([lname(iname) + "L'"] if last else [])
+            base = fell(names + ([lname(iname) + "L'"] if last else []))
+            pc = ([lname(iname)] if iname else []) + (['_'] if last else [])
+            d = [doc, f'def {name}{capsig} : {typ}',
+                 '  | ' + ', '.join(pi + names + ['[]']) + ' => ' + base,
+                 '  | ' + ', '.join(pc + names + [f"{lname(cname)} :: rest'"]) + ' =>' + do] + ind(ind(body))
+            init = ([f'(0 : Int)'] if iname else []) + (['none'] if last else [])
+            call = ' '.join([name + capargs] + init + [self.coerce_init(n, env[n], slots[n]) for n in state] + [itv.lean])
+        else:
+            typ = ' → '.join(['Nat'] + [lean_type(slots[n]) for n in state] + [res_t])
+            d = [doc, f'def {name}{capsig} : {typ}',
+                 '  | ' + ', '.join(['0'] + ['_'] * len(names)) + ' => throw Exc.fuel',
+                 '  | ' + ', '.join(["fuel' + 1"] + names) + ' => do'] + ind(ind(
+                     test_lines[:-1] + [f'if {test_lines[-1]} then'] + ind(body) + ['else', '  ' + fell(names)]))
+            call = ' '.join([name + capargs, fuel] + [self.coerce_init(n, env[n], slots[n]) for n in state])
+        self.aux.append('\n'.join(d))
+        self.fresh += 1
+        r = f"l{self.fresh}'"
+        lines = pre0 + [f'let {r} : {out_t} {"←" if self.monadic else ":="} {call}']
+        comps = state + ([iname] if last else [])
+
+        def unpack(src, env):
+            ls = []
+            for i, n in enumerate(comps):
+                proj = src if len(comps) == 1 else src + '.2' * i + ('.1' if i < len(comps) - 1 else '')
+                typ = 'Unbound:Int' if (last and n == iname) else slots[n]
+                env = dict(env)
+                env[n] = V(lname(n), typ, None)
+                ls.append(f'let {lname(n)} : {lean_type(typ)} := {proj}')
+            return ls, env
+        if not inner_ret:
+            ls, env = unpack(r, env)
+            return lines + ls + self.block(rest, env, tail)
+        ls, env = unpack("s'", env)
+        return lines + [f'match {r} with', f"| Loop.ret v' => {self.ret(chr(118) + chr(39))}", f"| Loop.fell s' =>" + do] \
+            + ind(ls + self.block(rest, env, tail))
+
+    def coerce_init(self, name, v, slot):
+        if slot == 'Bool' and v.type == 'Int':      # widened: the literal the variable holds
+            v = V(self.slot_init[name], 'Int', None)
+        self.slots = {name: slot}
+        try:
+            return self.coerce(name, v).lean
+        finally:
+            self.slots = {}
+
+    def loop_body(self, s, env, state, slots, name, iname, cname, last, inner_ret, fuel):
+        benv = dict(env)
+        for n in state:
+            benv[n] = V(lname(n), slots[n], None)
+        if cname:
+            benv[cname] = V(lname(cname), 'Char', None)
+        if iname:
+            benv[iname] = V(lname(iname), 'Int', None)
+        cur = lambda e: [e[n].lean for n in state]   # noqa: E731
+
+        def again(e):       # the end of the body and `continue`: the next iteration
+            if fuel is None:
+                idx = ([f'({lname(iname)} + 1)'] if iname else []) + ([f'(some {lname(iname)})'] if last else [])
+                return [' '.join([name + ' «CAP»'] + idx + cur(e) + ["rest'"])]
+            return [' '.join([name + ' «CAP»', "fuel'"] + cur(e))]
+
+        def stop(e):        # `break`
+            xs = cur(e) + ([f'(some {lname(iname)})'] if last else [])
+            t = '(' + ', '.join(xs) + ')' if xs else '()'
+            return [self.ret(f'(Loop.fell {t})' if inner_ret else t)]
+        self.loopctx = [{'brk': stop, 'cont': again}]
+        test_lines = []
+        if fuel is not None:
+            c = self.test(s.test, benv)
+            test_lines = self.take_pre() + [c]
+        body = self.block(s.body, benv, Tail(state, again))
+        return body, test_lines
+
     def translate(self):
         a, t = self.func.args, self.t
+        self.parent = {c: p for p in ast.walk(self.func) for c in ast.iter_child_nodes(p)}
+        if t.fragment:
+            return self.translate_fragment()
         decos = [ast.unparse(d) for d in self.func.decorator_list]
         first = {(): ['self'], ('classmethod',): ['cls'], ('staticmethod',): []}.get(tuple(decos)) if t.cls else []
         names = [x.arg for x in a.args]
@@ -829,7 +1322,33 @@ class Fn:
             return self.block(self.func.body, env, Tail([], off_end))
         except NeedMonad:
             self.monadic, self.used, self.rtype, self.fresh, self.pre, self.notes = True, saved, None, 0, [], []
+            self.aux, self.nloops, self.loopctx, self.slots = [], 0, [], {}
             return self.block(self.func.body, env, Tail([], off_end))
+
+    def translate_fragment(self):
+        """the first `for` loop of the function and the constant initialisations directly in front of it; the free
+        variables are the declared arguments; the result is the tuple of the variables named in the target"""
+        t = self.t
+        frag = find_fragment(self.func)
+        if frag is None:
+            self.fail(self.func, 'no `for` loop found')
+        self.notes.append(f'FRAGMENT: lines {frag[0].lineno}-{frag[-1].end_lineno} of the function (the first `for` loop and the '
+                          f'constant initialisations in front of it); result = ({", ".join(t.fragment)}), where a loop '
+                          f'variable is None when the loop never ran')
+        env = {n: self.param(lname(n), typ) for n, typ in (t.args or {}).items()}
+        self.nargs = len(self.used)
+        types = []
+
+        def result(e):
+            for n in t.fragment:
+                if n not in e:
+                    self.fail(self.func, f'fragment result `{n}` is not bound')
+                types.append(lean_type(e[n].type))
+            return ['(' + ', '.join(e[n].lean for n in t.fragment) + ')']
+        # the variables of the result are "read later"
+        body = self.block(frag, env, Tail(list(t.fragment), result))
+        self.rtype, self.rtype_lean = 'Tuple', ' × '.join(types)
+        return body
 
 
 # ---------------------------------------------------------------- driver
@@ -837,7 +1356,7 @@ class Fn:
 PARAM_DOC = {'TD': 'timedelta, whole seconds', 'PyDate': 'date: year month day', 'OptStr': 'str or None',
              'PyDateTime': 'datetime: year month day hour minute second', 'Int': 'int', 'Bool': 'bool', 'Str': 'str',
              'StrList': 'list of str'}
-RETURN_DOC = {'Bytes': 'bytes (as the str they encode)', 'TD': 'a timedelta', 'PyDate': 'a date', 'PyTime': 'a time',
+RETURN_DOC = {'StrList': 'a list of str', 'Tuple': 'a tuple', 'Bytes': 'bytes (as the str they encode)', 'TD': 'a timedelta', 'PyDate': 'a date', 'PyTime': 'a time',
               'PyDateTime': 'a datetime'}
 HEADERS = {
     'enc': ['/- GENERATED by tools/py2lean.py (called from tools/extract.py) from the function bodies in',
@@ -864,7 +1383,19 @@ HEADERS = {
                '   `REGEX.search(s)` is a predicate PARAMETER (Str -> Bool), named in each comment. -/',
                'import ICal.Model.PyRT', 'namespace ICal.Gen.BodiesParser', 'open ICal ICal.PyRT', ''],
 }
-NAMESPACE = {'enc': 'ICal.Gen.Bodies', 'dec': 'ICal.Gen.BodiesDec', 'parser': 'ICal.Gen.BodiesParser'}
+NAMESPACE = {'enc': 'ICal.Gen.Bodies', 'dec': 'ICal.Gen.BodiesDec', 'parser': 'ICal.Gen.BodiesParser',
+             'line': 'ICal.Gen.BodiesLine', 'fold': 'ICal.Gen.BodiesFold', 'text': 'ICal.Gen.BodiesText'}
+for _g, _what in (('line', 'content-line'), ('fold', 'folding'), ('text', 'TEXT-list')):
+    _n = NAMESPACE[_g].split('.')[-1]
+    HEADERS[_g] = [f'/- GENERATED by tools/py2lean.py (called from tools/extract.py) from the {_what} function bodies of',
+                   f'   src/icalendar/parser.py. Do not edit: regenerated on every run; lean/ICal/Lemmas/{_n}.lean proves',
+                   '   each definition equal to the hand-written model.  Conventions as in Gen/Bodies.lean; loops are',
+                   '   separate recursive definitions `<fn>_loop<k>` (structural over the characters, or on fuel for a',
+                   '   `while`: see ICal/Model/PyRT.lean, wave 3). -/',
+                   'import ICal.Model.PyRT', 'set_option linter.unusedVariables false', f'namespace {NAMESPACE[_g]}',
+                   'open ICal ICal.PyRT', '']
+HEADERS['parser'] = HEADERS['parser'][:-3] + ['import ICal.Model.PyRT', 'set_option linter.unusedVariables false',
+                                              'namespace ICal.Gen.BodiesParser', 'open ICal ICal.PyRT', '']
 
 
 def comment_safe(s):
@@ -887,8 +1418,10 @@ def translate(src_dir, group='enc'):
             raise Untranslatable(f'{qual}: {e}')
         fp = X.fingerprint(func)
         fps[qual] = fp
+        if t.fragment:
+            qual += ' (fragment)'
         fn = Fn(t, cls, func, registry, module_bindings(trees[t.file]))
-        fn.tree = trees[t.file]
+        fn.tree, fn.src_dir = trees[t.file], src_dir
         try:
             body = fn.translate()
         except Untranslatable as e:
@@ -909,20 +1442,29 @@ def translate(src_dir, group='enc'):
                 src_of[e[1]] = f'bool({f}(s))'
             elif e[0] == 'match':
                 src_of[e[1]] = f'{f}(..): None or the groups'
-        src_of['self'] = f'self (a {t.cls} is an int)'
+            elif e[0] in ('proc', 'pfun'):
+                src_of[e[1]] = f'the function {f} (external; it may raise)'
+            elif e[0] == 'expr':
+                src_of[e[1]] = f'the expression {f[:60]}.. as a function of ({", ".join(e[2])}) (external, not translated)'
+        src_of['self'] = f'self (a {t.cls} is {dict(Int="an int", Str="a str").get(t.self_type)})'
         pdoc = '; '.join(f'`{p}` = `{src_of.get(p, "parameter of a callee")}` ({PARAM_DOC.get(ty, ty)})'
                          for p, ty in fn.used) or 'none'
+        for d in fn.aux:
+            out += [d, '']
         out.append(f'/-- `{qual}` (AST fingerprint {fp}).  Parameters: {comment_safe(pdoc)}.')
         for n, typ in (t.args or {}).items():
             if typ == 'None':
                 out.append(f'    SPECIALISED to `{n}` = None (its default).')
         for note in fn.notes:
             out.append('    ' + comment_safe(note) + '.')
-        rdoc = RETURN_DOC.get(fn.rtype, fn.rtype.lower())
+        rdoc = 'a tuple' if fn.rtype.startswith('Tuple') else RETURN_DOC.get(fn.rtype, fn.rtype.lower())
         out.append(f'    Returns {rdoc}{"; can raise (Py)" if fn.monadic else ""}. -/')
         sig = ''.join(f' ({p} : {lean_type(ty)})' for p, ty in fn.used)
-        rt = lean_type(fn.rtype)
-        out.append(f'def {t.lean}{sig} : {"Py " + rt if fn.monadic else rt} :=' + (' do' if fn.monadic else ''))
+        opaque = sorted({e[3] for e in t.externals.values() if isinstance(e[0], str) and e[0] in ('pfun', 'expr') and e[3] not in LEAN_TYPE})
+        sig = ''.join(f' {{{o} : Type}}' for o in opaque) + sig
+        rt = fn.rtype_lean or lean_type(fn.rtype)
+        out.append(f'def {t.lean}{sig} : {"Py (" + rt + ")" if fn.monadic and " " in rt else "Py " + rt if fn.monadic else rt} :='
+                   + (' do' if fn.monadic else ''))
         out += ['  ' + ln for ln in body]
         out.append('')
     out.append(f'end {NAMESPACE[group]}')
